@@ -4,7 +4,9 @@
      new | newheap | release <p> <now|flag|none> | logdealloc <p> | evict <p> | wrote <p> | flushlog | probe
      clean <order>                     order: comma separated ids, "-" for none
      crash <kept> <survivors> <order>
-   Started with the argument "fixed" the restart of the repaired start-up is used (pa_step true).
+   Default: the model of the current engine (pa_step true).  Started with the argument "prefix" the start-up
+   before the repair d99b876 is used (pa_step false).  img: pa_image_ok of that variant (current engine: the
+   owned half only).
    Answer: <id=N | ok | bad> ok=<client contract holds for this op> img=<restart image well formed>
            reusable= flagged= inuse= pending= next= fsize= durable= log=<D/R/H ids>
            fresh=<pa_new_fresh> nodup=<pa_inuse_nodup> reusok=<pa_reusable_ok>   (checkers on the state AFTER the op) *)
@@ -42,8 +44,9 @@ let mode_of (s : string) : pa_mode =
   match s with "now" -> MNow | "flag" -> MFlag | "none" -> MNone | _ -> failwith "bad mode"
 
 let () =
-  (* argument "fixed": the start-up variant that raises the allocator above the rebuilt reusable list *)
-  let fx = Array.length Sys.argv > 1 && Sys.argv.(1) = "fixed" in
+  (* default: the current engine (pa_step true = pa_now, Redo with the repair d99b876);
+     argument "prefix": the start-up before that repair (pa_step false = pa_prefix) *)
+  let fx = not (Array.length Sys.argv > 1 && Sys.argv.(1) = "prefix") in
   let st = ref pa_init in
   try
     while true do
